@@ -100,14 +100,14 @@ const _: () = {
         
         #[inline(always)]
         fn push(&mut self, param: Slice) {
-            #[cfg(debug_assertions)] {
-                assert!(self.next < Self::LIMIT);
+            /* handlers take at most `LIMIT` params: further param segments of a route just match */
+            if self.next < Self::LIMIT {
+                unsafe {self.list
+                    .get_unchecked_mut(self.next)
+                    .write(param);
+                }
+                self.next += 1;
             }
-            unsafe {self.list
-                .get_unchecked_mut(self.next)
-                .write(param);
-            }
-            self.next += 1;
         }
     }
     
